@@ -217,7 +217,7 @@ class TdmsSegment(object):
         return metadata
 
     def raw_data_index(self, obj):
-        if hasattr(obj, 'data'):
+        if _has_raw_data(obj):
             data_type = Int32(obj.data_type.enum_value)
             dimension = Uint32(1)
             num_values = Uint64(len(obj.data))
@@ -255,13 +255,13 @@ class TdmsSegment(object):
     def _data_size(self):
         data_size = 0
         for obj in self.objects:
-            if hasattr(obj, 'data'):
+            if _has_raw_data(obj):
                 data_size += object_data_size(obj.data_type, obj.data)
         return data_size
 
     def _write_data(self, file):
         for obj in self.objects:
-            if hasattr(obj, 'data'):
+            if _has_raw_data(obj):
                 write_data(file, obj)
 
 
@@ -357,6 +357,12 @@ class ChannelObject(TdmsObject):
         """The string representation of this channel's path
         """
         return str(ObjectPath(self.group, self.channel))
+
+
+def _has_raw_data(obj):
+    # Empty data for which no TDMS data type can be determined (for example an empty
+    # array of strings or timestamps) is written as an object without raw data.
+    return hasattr(obj, 'data') and obj.data_type is not Void
 
 
 def read_properties_dict(properties_dict):
